@@ -423,6 +423,7 @@ func ruleSaveRestore(c *eng.Ctx) {
 		return ok && types.Identical(pt.Elem(), types.Type(gsT))
 	}
 	pushed := false
+	noClone := token.NoPos
 	saveCluster := eng.Cluster(save, 1)
 	for _, h := range saveCluster {
 		eng.Instrs(h, false, func(in ssa.Instruction) {
@@ -433,14 +434,21 @@ func ruleSaveRestore(c *eng.Ctx) {
 			if _, ok := eng.AsField(stx.Addr); !ok {
 				return
 			}
+			has := false
 			for v := range eng.SliceInter(stx.Val, func(*ssa.Call) bool { return true }, saveCluster) {
 				if call, ok := v.(*ssa.Call); ok && eng.StaticCallee(call) == clone {
-					pushed = true
+					pushed, has = true, true
 				}
+			}
+			if !has {
+				noClone = stx.Pos()
 			}
 		})
 	}
 	c.Check(pushed, R, gsType+"Save#push", save.Pos(), "Save appends Clone() to the stack", "Save does not push a Clone() of the state onto the stack")
+	// every way Save changes the stack pushes a fresh Clone(): a snapshot recycled from the backing array and
+	// refreshed field by field is only as complete as the list of fields someone remembered
+	c.Check(noClone == token.NoPos, R, gsType+"Save#every-push-clones", save.Pos(), "the stack only ever grows by a Clone()", "Save also changes the stack at "+c.P.Pos(noClone)+" without pushing a Clone(): a recycled snapshot keeps the fields nobody refreshed (the text state of an earlier q)")
 	// Restore: source element index is len(stack)-1 and the stack is re-sliced to [:len-1]
 	popLast, shrink := false, false
 	isLenMinus1 := func(v ssa.Value) bool {
